@@ -34,8 +34,9 @@ PROPS["C05"] = dict(
     technique="crash-point enumeration over generated request histories (rapid): snapshot of (bolt file, cloud state, acknowledged-request model) at every externally visible effect; a restarted service is rebuilt from each snapshot with the real reload/re-apply code and checked against the model",
     rule="history of 1..10 (thorough 24) ADD / new-sandbox ADD / DEL / balancer-pass steps over 5 pods and a drawn pool configuration; crash points = every cloud call (before/after), every database Put/Delete (before/after) and every reply; quick tier restarts a drawn subset of <= 12 points per history, thorough tier all of them; non-trivial = at least one crash point strictly inside a request (between its first and last effect) or an interface vanished while the daemon was down; distinct = distinct scenario hash",
     assumptions=_assume + ["the ~50 lines of NetworkServiceBuilder.setupENIManager that wire restart (list db, getPodResources, filterENINotFound, NewLocal per attached interface, NewManager, Run) are mirrored in the harness because that function needs cloud credentials and the metadata service",
-                           "process death is modelled by discarding all in-memory state at an effect boundary and keeping the bytes of the database file as they are at that instant; power-loss durability (fsync) is not observable and not claimed"],
+                           "process death inside the service is modelled by discarding all in-memory state at an effect boundary and keeping the bytes of the database file as they are at that instant; in addition a real child process writing a generated Put/Delete stream to a real DiskStorage is SIGKILLed at a drawn instant and the file reopened; power-loss durability (fsync) is not observable and not claimed"],
     level_text="for every explored crash point: acknowledged ADDs keep record+ownership, the in-flight request is followed up as the runtime would (retry or DEL), owners == acknowledged holders exactly (nothing stranded), and filling the node with fresh pods yields exactly capacity - acknowledged allocations and never an acknowledged address",
     level_note="crash points are effect boundaries of the request goroutine and pool workers; a crash between two in-memory steps without an external effect is indistinguishable from the preceding boundary",
-    tests=[dict(unit="daemon", test="TestVerifC05Restart", quick=160, thorough=2400, timeout_quick=900)],
+    tests=[dict(unit="daemon", test="TestVerifC05Restart", quick=160, thorough=2400, timeout_quick=900),
+           dict(unit="daemon", test="TestVerifC05Sigkill", quick=160, thorough=1600, timeout_quick=900)],
 )
